@@ -33,7 +33,7 @@ func init() {
 	register(&Property{
 		ID:      "C04",
 		NeedSSA: true,
-		Decided: "Narrow structural necessary conditions only: (dst) in every Encode/Decode method under encoding/ the reusable output buffer (and the offsets buffer of DecodeByteArray) is only truncated, measured with cap(), passed to a helper obeying the same rule, reinterpreted with unsafecast, or returned — results cannot depend on what the buffers held before; (tables) the encoding tables map each code to the implementation that reports it (C01.tables); (twins) the tree type-checks in every build configuration (amd64, purego, arm64, 386, s390x; thorough tier) so each accelerated kernel has a portable twin with the same signature. (pairs) for every page encoding the kinds with an Encode method of its own are exactly the kinds with a Decode method of its own. (viewstate) when Slice of a page type computes an integer field as a position inside a unit (x % 8), the Data method of the type reads that field, directly or through a method of the same receiver.",
+		Decided: "Narrow structural necessary conditions only: (dst) in every Encode/Decode method under encoding/ the reusable output buffer (and the offsets buffer of DecodeByteArray) is only truncated, measured with cap(), passed to a helper obeying the same rule, reinterpreted with unsafecast, or returned — results cannot depend on what the buffers held before; (tables) the encoding tables map each code to the implementation that reports it (C01.tables); (twins) the tree type-checks in every build configuration (amd64, purego, arm64, 386, s390x; thorough tier) so each accelerated kernel has a portable twin with the same signature. (pairs) for every page encoding the kinds with an Encode method of its own are exactly the kinds with a Decode method of its own. (viewstate) when Slice of a page type computes an integer field as a position inside a unit (x % 8), the Data method of the type reads that field, directly or through a method of the same receiver. (offsetsrc) every use of the src parameter of an EncodeByteArray method goes through a slice or an index of it (or measures it): the values are the bytes the offsets cover.",
 		NotDecided: "losslessness, conformance with the format specification, equality of assembly and portable kernels (assembly is not analysed), bit-level arithmetic inside encoders and decoders (a wrong index, an off-by-one guard or a wrong copy source inside a kernel is invisible to these rules).",
 		Assumptions: []string{"see DESIGN.md §4 C04"},
 		Run:         runC04,
@@ -366,6 +366,7 @@ func runC03(c *Ctx) {
 
 func runC04(c *Ctx) {
 	runViewStateRule(c, "C04.viewstate", 1)
+	c04OffsetSrc(c)
 	runDstRule(c, "C04.dst", []string{"/encoding"}, nil)
 	c.Min("C04.dst", 50)
 	runTableRule(c, "C04.tables", "encodings", "Encoding", 9)
@@ -1052,6 +1053,61 @@ func c09NullCount(c *Ctx) {
 			_, isConst := args[1].(*ssa.Const)
 			c.Check(rule, FuncKey(fn)+" counts nulls against the maximum definition level#"+itoa(k), call.Pos(), !isConst, FuncKey(fn)+" counts definition levels against a constant: nulls below a present optional group (a level between 0 and the maximum) are not counted, the key range of a sorted input misses its nulls and overlapping inputs are concatenated instead of merged")
 		})
+	}
+	c.Min(rule, 3)
+}
+
+// c04OffsetSrc — the values of an EncodeByteArray call are the bytes of src
+// that its offsets cover, not src: every use of the src parameter in an
+// EncodeByteArray method goes through a slice or an index of it (or measures
+// it). A method that appends, copies or passes src whole encodes bytes the
+// offsets do not describe when the page is a slice of a larger buffer.
+func c04OffsetSrc(c *Ctx) {
+	rule := "C04.offsetsrc"
+	n := 0
+	for _, fn := range c.P.ModuleSSAFuncs() {
+		if fn.Origin() != nil || fn.Blocks == nil || fn.Parent() != nil || fn.Name() != "EncodeByteArray" || !strings.Contains(fnPkgPath(fn), "/encoding/") || len(fn.Params) != 4 {
+			continue
+		}
+		src := fn.Params[2]
+		var whole []string
+		uses := 0
+		var check func(v ssa.Value, seen map[ssa.Value]bool)
+		check = func(v ssa.Value, seen map[ssa.Value]bool) {
+			if seen[v] || v.Referrers() == nil {
+				return
+			}
+			seen[v] = true
+			for _, r := range *v.Referrers() {
+				switch x := r.(type) {
+				case *ssa.Slice, *ssa.IndexAddr, *ssa.Index, *ssa.DebugRef:
+					uses++
+				case *ssa.Phi:
+					check(x, seen)
+				case *ssa.Store:
+					// spilled for a closure: the loads of the cell denote src
+					if al, ok := x.Addr.(*ssa.Alloc); ok && x.Val == v {
+						for _, rr := range *al.Referrers() {
+							if ld, ok := rr.(*ssa.UnOp); ok {
+								check(ld, seen)
+							}
+						}
+					}
+				case ssa.CallInstruction:
+					if bi, isB := x.Common().Value.(*ssa.Builtin); isB && (bi.Name() == "len" || bi.Name() == "cap") {
+						uses++
+						continue
+					}
+					whole = append(whole, calleeName(x)+" at "+c.P.Pos(x.Pos()))
+				default:
+					whole = append(whole, "used at "+c.P.Pos(r.Pos()))
+				}
+			}
+		}
+		check(src, map[ssa.Value]bool{})
+		n++
+		sort.Strings(whole)
+		c.Check(rule, FuncKey(fn)+" encodes the bytes its offsets cover", fn.Pos(), len(whole) == 0, FuncKey(fn)+" uses its src parameter whole ("+strings.Join(whole, ", ")+"): the offsets of a sliced page cover a part of the values buffer, and the page is encoded with bytes the offsets do not describe")
 	}
 	c.Min(rule, 3)
 }
